@@ -229,7 +229,8 @@ func (r *GatewayRegistry) upsertDatabaseConfig(ctx context.Context, configGroupI
 
 	newRegistryDatabase := registryDatabaseFromConfig(config)
 	previousRegistryDatabase, ok := configGroup.Databases[config.Name]
-	if ok {
+	// An entry left by a delete that wasn't finalized isn't a previous version of the database being created
+	if ok && !previousRegistryDatabase.IsDeleted() {
 		newRegistryDatabase.PreviousVersion = &RegistryDatabaseVersion{
 			Version: previousRegistryDatabase.Version,
 			Scopes:  previousRegistryDatabase.Scopes,
@@ -315,7 +316,8 @@ func (r *GatewayRegistry) getCollectionConflicts(ctx context.Context, dbName str
 
 	for _, configGroup := range r.ConfigGroups {
 		for registryDbName, database := range configGroup.Databases {
-			if registryDbName != dbName {
+			// Deleted databases don't own any collections (in particular, not the default collection)
+			if registryDbName != dbName && !database.IsDeleted() {
 				registryScopes := database.Scopes
 				if len(registryScopes) == 0 {
 					registryScopes = defaultOnlyRegistryScopes
@@ -340,7 +342,8 @@ func (r *GatewayRegistry) getPreviousConflicts(ctx context.Context, dbName strin
 	conflictingDbs := make(map[configGroupAndDatabase]struct{}, 0)
 	for cgName, configGroup := range r.ConfigGroups {
 		for registryDbName, database := range configGroup.Databases {
-			if registryDbName != dbName && database.PreviousVersion != nil {
+			// Previous version of a deleted database has no scopes - collections of in-flight deletes are not conflicts
+			if registryDbName != dbName && database.PreviousVersion != nil && !database.IsDeleted() {
 				previousScopes := database.PreviousVersion.Scopes
 				if len(previousScopes) == 0 {
 					previousScopes = defaultOnlyRegistryScopes
